@@ -90,9 +90,15 @@ def _blame(a, b):
     return f"C06:si:{a}->{b}"
 
 
+# exactly one full turn, written as the literal a user would type ("angles within one turn" includes the turn itself)
+FULL_TURN = {"Degree": 360.0, "Mil": 6400.0, "Thousandth": 6000.0, "OClock": 12.0, "MOA": 21600.0, "MRad": 2000.0 * math.pi,
+             "Radian": 2.0 * math.pi}
+
+
 def check_pair(case):
     a, b, x = case["a"], case["b"], case["x"]
-    x = _fit(x, a, (b,))
+    if not case.get("exact_turn"):
+        x = _fit(x, a, (b,))
     r = Res()
     r.nontrivial = a != b and x != 0
     r.label(ref.DIMENSION[a])
@@ -159,6 +165,8 @@ def _enum_pairs():
     for a, b in PAIRS:
         for x in EDGE:
             yield {"a": a, "b": b, "x": x}
+        if a in FULL_TURN and b in FULL_TURN:
+            yield {"a": a, "b": b, "x": FULL_TURN[a], "exact_turn": True}
 
 
 def _enum_triples():
